@@ -712,6 +712,22 @@ func RampMetrics(n, distinct, base int, col string) pmetric.Metrics {
 
 // ParentsTraces: n spans, each with an attribute / an event / neither, spread
 // over `nres` resources (id-width boundary batches of C08).
+// parentAttr gives parent number idx its attribute.  With "ignored" in the variant some parents carry only attributes
+// the encoder skips (an unset value, an empty key): they still need an id but contribute no attribute row.
+func parentAttr(m pcommon.Map, idx int, with string) {
+	if strings.Contains(with, "ignored") {
+		switch idx % 7 {
+		case 3:
+			m.PutEmpty("e")
+			return
+		case 5:
+			m.PutStr("", "v")
+			return
+		}
+	}
+	m.PutBool("a", true)
+}
+
 func ParentsTraces(n, nres int, with string) ptrace.Traces {
 	td := ptrace.NewTraces()
 	per := (n + nres - 1) / max(1, nres)
@@ -738,7 +754,7 @@ func ParentsTraces(n, nres int, with string) ptrace.Traces {
 				continue
 			}
 			if strings.Contains(with, "attr") && !strings.Contains(with, "resattr") || strings.Contains(with, "spanattr") {
-				s.Attributes().PutBool("a", true)
+				parentAttr(s.Attributes(), made, with)
 			}
 			if strings.Contains(with, "event") {
 				s.Events().AppendEmpty()
@@ -765,7 +781,7 @@ func ParentsLogs(n, nres int, with string) plog.Logs {
 		for i := 0; i < per && made < n; i++ {
 			l := sl.LogRecords().AppendEmpty()
 			if strings.Contains(with, "logattr") {
-				l.Attributes().PutBool("a", true)
+				parentAttr(l.Attributes(), made, with)
 			}
 			made++
 		}
@@ -787,7 +803,7 @@ func ParentsMetrics(n, nres int, with string) pmetric.Metrics {
 			m := sm.Metrics().AppendEmpty()
 			dp := m.SetEmptyGauge().DataPoints().AppendEmpty()
 			if strings.Contains(with, "dpattr") {
-				dp.Attributes().PutBool("a", true)
+				parentAttr(dp.Attributes(), made, with)
 			}
 			made++
 		}
